@@ -65,6 +65,11 @@ CLAIMED = {
         "text": "Every Iterable/Iterator parameter of the population module is checked for being consumed at most once unless first rebound to a materialised copy; several passes become a violation when a strong call site passes a generator/map/zip/filter (otherwise reported as latent). The per-file cache slot has a single writer, guarded by `slot is None` with the same key and filled from the same-numbered file; indexing is normalise -> load -> read; construction creates empty slots only. Only the loader calls the file readers in the module, and the loader is reached only from indexing and the explicit eager arm; Population's constructor probes at most element 0. Chain indexing is tabulated over cumsum[mid] ? idx (bisect-right), member lo-1 at offset idx - cumsum[lo-1]. Multi-directory rows share one list object of common relative paths; rows and map preserve order (no unordered executor API).",
         "note": ASSUME + " Executor.map / process_map return results in input order.",
     },
+    "C20": {
+        "technique": "dtype-conversion arm lint, table-key normalisation lint, axes-permutation agreement by constant folding",
+        "text": "Only the structural clauses of the save/load half are decided: in both dtype-conversion blocks every arm must rebind the array by plain assignment to an expression of the requested dtype (an augmented assignment is a violation) with the scale factor in the right direction; every subscript of the unsigned-maximum table must be an np.dtype and the table must map uintN to 2**N-1; the axes string written by save_tiff must equal (X,Y,Z,C) permuted by the constant moveaxis applied before writing, the reader's argsort over its axis table must map that string back to (X,Y,Z,C), the fallback layout must be the writer's, rasterised frames are stacked along axis 0 and sampled at voxel centres. What tifffile/pynrrd persist and the rasteriser's voxel membership are not decided.",
+        "note": ASSUME,
+    },
 }
 
 NOT_BUILT = "check not built yet in this round (planned, see DESIGN.md section 4); nothing is claimed"
